@@ -386,7 +386,7 @@ func main() {
 		"distinct = (client kind, shared connection?, namespace set)")
 	run.Assume("every payload carries its namespace tag; the oracle is set membership on the recorded log")
 	r := run.Rand("c05")
-	nProg := run.Pick(60, 600)
+	nProg := run.Pick(400, 4000)
 	if run.SubMode == "race" {
 		nProg = 20
 	}
@@ -395,8 +395,14 @@ func main() {
 	for i := 0; i < nProg; i++ {
 		n := 1 + i%4
 		nsps := pickNsps(r, n)
-		if i%5 == 0 {
-			nsps[0] = "/" // always exercise the default namespace together with look-alikes
+		if i%5 == 0 { // always exercise the default namespace together with look-alikes
+			has := false
+			for _, x := range nsps {
+				has = has || x == "/"
+			}
+			if !has {
+				nsps[0] = "/"
+			}
 		}
 		shared := i%3 != 0
 		delays := [][]time.Duration{{0}, {0, 5 * time.Millisecond}, {8 * time.Millisecond, 0, 3 * time.Millisecond}}[i%3]
@@ -424,8 +430,8 @@ func main() {
 	}
 	wg.Wait()
 	// admission window: unforced, then widened through the hook (sequential: the hook is process-global)
-	runAdmissionWindow(run, "websocket", 0, run.Pick(300, 3000))
-	runAdmissionWindow(run, "polling", 0, run.Pick(100, 1000))
+	runAdmissionWindow(run, "websocket", 0, run.Pick(1500, 15000))
+	runAdmissionWindow(run, "polling", 0, run.Pick(400, 4000))
 	runAdmissionWindow(run, "websocket", 3*time.Millisecond, run.Pick(10, 50))
 	runAdmissionWindow(run, "polling", 3*time.Millisecond, run.Pick(10, 50))
 	if bin := os.Getenv("VERIF_RACE_BIN"); bin != "" && run.Thorough() && run.SubMode == "" {
